@@ -434,11 +434,9 @@ func (c *Ctx) handleCounterexample(j Job, e *engine.Engine, o engine.Outcome) {
 	confirmed := false
 	switch o.Ob.Kind {
 	case "assert":
-		for _, f := range nr.Failures {
-			if f == o.Ob.Rec.Msg {
-				confirmed = true
-			}
-		}
+		// the native run stops at its first failing assertion, which may be another assertion of
+		// the same harness than the one this model was computed for: any failure confirms
+		confirmed = len(nr.Failures) > 0 || nr.Panic != ""
 	case "panic":
 		confirmed = nr.Panic != ""
 	case "unwind":
